@@ -411,11 +411,11 @@ impl Monitor for C16 {
         v.extend(split_chunks("nest", 0, 8 * 10, 80, 10));
         v.extend(split_chunks("opts", 0, (HOSTILE_DEFINES.len() * 4) as u64, (HOSTILE_DEFINES.len() * 4) as u64, 10));
         let (nm, nb) = match tier {
-            Tier::Quick => (40_000, 5_000),
-            Tier::Thorough => (400_000, 50_000),
+            Tier::Quick => (120_000, 20_000),
+            Tier::Thorough => (1_200_000, 200_000),
         };
-        v.extend(split_chunks("mut", seed_offset(seed, "C16m", 400_000), nm, 400_000, 500));
-        v.extend(split_chunks("bytes", seed_offset(seed, "C16b", 50_000), nb, 50_000, 500));
+        v.extend(split_chunks("mut", seed_offset(seed, "C16m", 1_200_000), nm, 1_200_000, 500));
+        v.extend(split_chunks("bytes", seed_offset(seed, "C16b", 200_000), nb, 200_000, 500));
         v
     }
     fn run_case(&self, kind: &str, idx: u64) -> CaseResult {
